@@ -153,6 +153,11 @@ def canon_parsed_dict(d):
             (d["version"], ins, outs, wits, d["locktime"]))
 
 
+def canon_tx_deser_worker(r):
+    """inside the worker: (dict, leftover) -> [parsed tuple, leftover]"""
+    return [canon_parsed_dict(r[0]), r[1]]
+
+
 def _is_pairs(v):
     return isinstance(v, list) and all(isinstance(p, (tuple, list)) and len(p) == 2 and isinstance(p[0], str) for p in v)
 
@@ -307,6 +312,141 @@ def structural(rng, tier):
     return out
 
 
+NULL32 = b"\x00" * 32
+
+
+def coinbase_like(rng, segwit, null_txid=True, vout=0xffffffff, n_in=1, n_out=None):
+    """a coinbase-shaped transaction: first input spends the null outpoint 00..00:ffffffff; the segwit form is what
+    coinbase_tx(..., witness_merkle_root_hash=...) produces: witness = one 32-byte reserved value, an OP_RETURN
+    aa21a9ed commitment output"""
+    ins = [(NULL32 if null_txid else rng.randbytes(32), vout, rng.randbytes(rng.choice([2, 4, 8, 100])), FINAL_SEQ)]
+    ins += [gen_txin(rng, rng.choice([0, 1, 5])) for _ in range(n_in - 1)]
+    outs = [gen_txout(rng, 25) for _ in range(n_out if n_out is not None else rng.choice([1, 2]))]
+    wits = None
+    if segwit:
+        outs.append((0, b"\x6a\x24\xaa\x21\xa9\xed" + rng.randbytes(32)))
+        wits = [[NULL32]] + [gen_stack(rng, rng.choice([0, 2]), SMALL_LENS) for _ in range(n_in - 1)]
+    return (rng.choice([1, 2]), ins, outs, wits, 0)
+
+
+def coinbases(rng, tier):
+    out = []
+    for sw in (True, False):
+        k = "segwit" if sw else "legacy"
+        for _ in range(6 if tier == "thorough" else 2):
+            out.append(("coinbase-" + k, coinbase_like(rng, sw)))
+        out.append(("coinbase-%s-2-inputs" % k, coinbase_like(rng, sw, n_in=2)))
+        out.append(("null-txid-vout-0-" + k, coinbase_like(rng, sw, vout=0)))
+        out.append(("nonnull-txid-vout-ffffffff-" + k, coinbase_like(rng, sw, null_txid=False)))
+        t = coinbase_like(rng, sw, n_in=3)
+        out.append(("null-outpoint-not-first-" + k, (t[0], t[1][1:] + t[1][:1], t[2], None if t[3] is None else t[3][1:] + t[3][:1], t[4])))
+    return out
+
+
+def repeated(rng, tier):
+    """RELATIONS BETWEEN ELEMENTS of lists that are normally distinct: two inputs with the same outpoint (adjacent, far
+    apart, all identical), identical whole inputs, identical outputs, identical witness stacks, a script equal to
+    another script, one txid equal to another with a different vout.  Well-formed on the wire; legacy and segwit."""
+    T = tier == "thorough"
+    out = []
+    for sw in (False, True):
+        k = "segwit" if sw else "legacy"
+        for _ in range(4 if T else 1):
+            for n, i, j in ((2, 0, 1), (3, 0, 2), (3, 1, 2), (8, 1, 6), (40, 3, 37)):
+                t = gen_tx(rng, n_in=n, n_out=rng.choice([1, 2]), in_lens=[0, 1, 5], segwit=sw)
+                ins = list(t[1])
+                ins[j] = (ins[i][0], ins[i][1]) + ins[j][2:]                      # same txid AND vout, rest differs
+                out.append(("dup-outpoint-%d-of-%d-%s" % (2, n, k) + ("-adjacent" if j == i + 1 else "-apart"), (t[0], ins, t[2], t[3], t[4])))
+            t = gen_tx(rng, n_in=3, n_out=1, segwit=sw)
+            ins = list(t[1])
+            ins[2] = (ins[0][0], ins[0][1] + 1 & 0xffffffff) + ins[2][2:]         # same txid, other vout: distinct outpoints
+            out.append(("same-txid-other-vout-" + k, (t[0], ins, t[2], t[3], t[4])))
+            for n in (2, 5, 253 if T else 30):
+                i0 = gen_txin(rng, rng.choice([0, 3]))
+                w = None if not sw else [gen_stack(rng, 2, [0, 4])] * n
+                out.append(("all-inputs-identical-%d-%s" % (n, k), (1, [i0] * n, [gen_txout(rng, 2)], w, 0)))
+                o0 = gen_txout(rng, rng.choice([0, 25]))
+                t = gen_tx(rng, n_in=2, n_out=0, segwit=sw)
+                out.append(("all-outputs-identical-%d-%s" % (n, k), (t[0], t[1], [o0] * n, t[3], t[4])))
+            t = gen_tx(rng, n_in=4, n_out=2, segwit=sw)
+            ins = [t[1][0], t[1][1], t[1][0], t[1][3]]                             # a whole input repeated
+            w = None if not sw else [t[3][0], t[3][1], t[3][0], t[3][1]]           # ... and identical witness stacks
+            out.append(("identical-whole-inputs-" + k, (t[0], ins, [t[2][0], t[2][0]], w, t[4])))
+            s = rng.randbytes(rng.choice([1, 25]))
+            t = gen_tx(rng, n_in=2, n_out=2, segwit=sw)
+            out.append(("scriptsig-equals-scriptpubkey-" + k,
+                        (t[0], [i[:2] + (s,) + i[3:] for i in t[1]], [(o[0], s) for o in t[2]], t[3], t[4])))
+    return out
+
+
+# ------------------------------------------------------------------------------------------------
+# FINGERPRINT COLLISIONS: pairs of DIFFERENT transactions of equal length that agree under a cheap fingerprint of
+# their complete serialisation (a cache keyed by such a fingerprint hands the second one the first one's answer)
+# ------------------------------------------------------------------------------------------------
+def _fingerprints():
+    import zlib
+    return {"crc32": zlib.crc32, "adler32": zlib.adler32,
+            "head16-tail16": lambda b: (b[:16], b[-16:]), "sum-of-bytes": lambda b: sum(b),
+            "xor-of-32bit-words": lambda b: __import__("functools").reduce(
+                lambda a, i: a ^ int.from_bytes(b[i:i + 4], "little"), range(0, len(b), 4), 0)}
+
+
+def _search_pair(rng, base, fp, tries=400000):
+    """birthday search over the 8 value bytes of the first output (free: any 64-bit value is well-formed)"""
+    ver, ins, outs, wits, lt = base
+    marker = b"\xa5" * 8
+    probe = ref_ser((ver, ins, [(int.from_bytes(marker, "little"), outs[0][1])] + outs[1:], wits, lt))
+    off = probe.index(marker)
+    assert probe.count(marker) == 1
+    seen = {}
+    for _ in range(tries):
+        v = rng.randbytes(8)
+        ser = probe[:off] + v + probe[off + 8:]
+        k = fp(ser)
+        if k in seen and seen[k] != v:
+            mk = lambda vv: (ver, ins, [(int.from_bytes(vv, "little"), outs[0][1])] + outs[1:], wits, lt)
+            return mk(seen[k]), mk(v)
+        seen[k] = v
+    return None
+
+
+def collision_pairs(cache=True):
+    """[(fingerprint name, kind, txA, txB)]: equal length, different bytes, equal fingerprint.  The pairs are cached
+    in corpus/c04_collision_pairs.json (searching takes ~1 s per CRC pair); every pair is re-verified when loaded."""
+    import json
+    import os
+    import random
+    from common import enc, dec
+    path = os.path.join(os.path.dirname(os.path.dirname(os.path.abspath(__file__))), "corpus", "c04_collision_pairs.json")
+    fps = _fingerprints()
+    out = []
+    if cache and os.path.exists(path):
+        for name, kind, a, b in json.load(open(path)):
+            ta, tb = norm_tx(dec(a)), norm_tx(dec(b))
+            sa, sb = ref_ser(ta), ref_ser(tb)
+            if sa != sb and len(sa) == len(sb) and fps[name](sa) == fps[name](sb):
+                out.append((name, kind, ta, tb))
+        if len(out) >= 2 * 2 * len(fps):
+            return out
+        out = []
+    rng = random.Random("collision-pairs")
+    for name, fp in fps.items():
+        for sw in (False, True):
+            for _ in range(2):
+                base = gen_tx(rng, n_in=rng.choice([1, 2]), n_out=rng.choice([1, 2]), segwit=sw,
+                              in_lens=[0, 1, 5], out_lens=[1, 22], item_lens=[0, 1, 33])
+                pr = _search_pair(rng, base, fp)
+                if pr:
+                    out.append((name, "segwit" if sw else "legacy", pr[0], pr[1]))
+    if cache:
+        try:
+            os.makedirs(os.path.dirname(path), exist_ok=True)
+            json.dump([[n, k, enc(a), enc(b)] for n, k, a, b in out], open(path, "w"), indent=0)
+        except OSError:
+            pass
+    return out
+
+
 def grammar(rng, tier):
     """list of (class, tx tuple) covering every boundary of the model"""
     T = tier == "thorough"
@@ -356,6 +496,8 @@ def grammar(rng, tier):
         t = (t[0], [((bytes([b0, 1]) + t[1][0][0])[:32],) + t[1][0][1:]], t[2], t[3], t[4])
         out.append(("first-txid-byte-%d" % b0, t))
     out += structural(rng, tier)
+    out += repeated(rng, tier)
+    out += coinbases(rng, tier)
     # plain random
     for _ in range(3000 if T else 150):
         sw = rng.random() < 0.5
